@@ -41,3 +41,48 @@ Proof.
   unfold count, seats_idx. rewrite M. cbn [sm_max with_seats].
   apply filter_length_le. intros x _ Hx. apply (act_result_of_s1 s s' x H Hx).
 Qed.
+
+(* who is left out by a rotation that keeps three or more dealt in, is left out because the seat lies between
+   the new button and the new big blind (the code's own betweenness test, evaluated at the positions in force
+   after the rotation) *)
+Theorem left_out_only_while_between s s' z : wf s -> rotate_default s = (Ok, s') ->
+  (3 <= count s' (act s'))%nat -> live s' z = true -> act s' z = false ->
+  between (sm_rule s) (mx s) (sm_dealer s') (sm_bb s') z = true.
+Proof.
+  intros Hwf H H3 Hl Ha. rewrite (rd_eq s) in H.
+  set (nb := next_in_chips s (sm_bb s)) in *.
+  set (s1 := with_seats s (reflag s (sm_sb s) nb)) in *.
+  destruct (active_count (sm_seats s1) <? 2)%nat; [discriminate|].
+  destruct (active_count (sm_seats s1) =? 2)%nat eqn:E2.
+  - (* exactly two dealt in: excluded by the premise *)
+    exfalso. inversion H; subst s'. clear H. rewrite count_with_pos in H3.
+    apply Nat.eqb_eq in E2. rewrite (active_count_count s1 (wf_reflag s _ _ Hwf)) in E2. lia.
+  - destruct (is_hu s).
+    + (* heads-up before: the flags are recomputed for the dealer that is chosen *)
+      inversion H; subst s'. clear H. cbn [sm_dealer sm_bb with_pos] in *.
+      rewrite act_with_pos in Ha.
+      assert (Hl' : live (with_seats s1 (reflag s1 (prev_alive s1 (sm_bb s)) nb)) z = true) by exact Hl.
+      rewrite act_reflag in Ha. rewrite live_reflag in Hl'. apply orb_false_iff in Ha. destruct Ha as [_ Ha].
+      rewrite Hl' in Ha. cbn [andb] in Ha. apply negb_false_iff in Ha. exact Ha.
+    + inversion H; subst s'. clear H. cbn [sm_dealer sm_bb with_pos] in *.
+      rewrite act_with_pos in Ha.
+      assert (Hl' : live s1 z = true) by exact Hl.
+      unfold s1 in Ha, Hl'. rewrite act_reflag in Ha. rewrite live_reflag in Hl'. apply orb_false_iff in Ha. destruct Ha as [_ Ha].
+      rewrite Hl' in Ha. cbn [andb] in Ha. apply negb_false_iff in Ha. exact Ha.
+Qed.
+
+(* ... and conversely a seated-in player with chips whose seat is not between them is dealt in by that rotation *)
+Theorem not_between_is_dealt_in s s' z : wf s -> rotate_default s = (Ok, s') ->
+  (3 <= count s' (act s'))%nat -> is_hu s = false -> live s z = true ->
+  between (sm_rule s) (mx s) (sm_dealer s') (sm_bb s') z = false -> act s' z = true.
+Proof.
+  intros Hwf H H3 Hhu Hl Hb. rewrite (rd_eq s) in H.
+  set (nb := next_in_chips s (sm_bb s)) in *.
+  set (s1 := with_seats s (reflag s (sm_sb s) nb)) in *.
+  destruct (active_count (sm_seats s1) <? 2)%nat; [discriminate|].
+  destruct (active_count (sm_seats s1) =? 2)%nat eqn:E2.
+  - exfalso. inversion H; subst s'. clear H. rewrite count_with_pos in H3.
+    apply Nat.eqb_eq in E2. rewrite (active_count_count s1 (wf_reflag s _ _ Hwf)) in E2. lia.
+  - rewrite Hhu in H. inversion H; subst s'. clear H. cbn [sm_dealer sm_bb with_pos] in *.
+    rewrite act_with_pos. unfold s1. rewrite act_reflag, Hl, Hb. apply orb_true_r.
+Qed.
